@@ -60,6 +60,8 @@ def run(ctx):
     r_rec(ctx, P)
     focus(ctx, P)
     poisoned_state_returns_error(ctx, P)
+    from rules import c10
+    c10.checksum_token_bounded(ctx, P)
 
 
 def r_panic(ctx, P, only=None, floors=(1800, 1200, 150)):
@@ -353,4 +355,7 @@ def poisoned_state_returns_error(ctx, P):
                 if any(len(vs) == 1 and (a, vs[0]) in poison for a, vs in arm_context(b, i, dom)):
                     good += 1
                     break
+    for p in sorted(reports):
+        ctx.functions.add(p)
+        ctx.ok('%s:poison:reports:%s' % (P, p), 'R-sib', 'reports the placeholder state as an error', function=p)
     ctx.check(P + ':poison:reference', 'R-sib', 'functions that report a placeholder state as an error (sibling reference for the rule)', good >= 3, count=good, panicking_sites=n)
